@@ -14,7 +14,10 @@ t = (t.replace("__DIR__", f"/tmp/mut/{name}").replace("__TITLE__", p.get("title"
 used = []
 for m in sorted(glob.glob(f"{root}/seeded/{prop}-*/meta.json")):
     j = json.load(open(m))
-    used.append(f"- {j['summary']} (needs: {j['needs']})")
+    import re
+    needs = re.sub(r"\s*[(;]\s*first (MISSED|caught)[^)]*\)?", "", j['needs']).rstrip()
+    if needs.count("(") > needs.count(")"): needs += ")"
+    used.append(f"- {j['summary']} (needs: {needs})")
 if used:
     t = t.replace('("seeded defects" A and B; the kind', '("seeded defects" A and B — this is a LATER round: see the list of already-used ideas at the end and do something genuinely different, attacking clauses of the statement, code paths, configuration options, output files and helper modules that the earlier ideas did not touch; favour defects that need a multi-step sequence, state carried between calls/iterations/files, two cooperating sites that each look fine alone, a particular thread count/interleaving, or an unusual-but-legal configuration; do not use `git stash`; the kind')
     t += "\n\nAlready used in earlier rounds for this property (do NOT repeat these or close variants):\n" + "\n".join(used) + "\n"
